@@ -566,6 +566,20 @@ func c18Run(c *Ctx, r gen.R, lc layoutCase, caseNo int64, tag string) {
 			if !check("unmarshal-array-element", reflect.ValueOf(el), vals, "UnmarshalArrayElement (input buffer overwritten afterwards)") {
 				return
 			}
+			// Unmarshal into a variable that already holds another value of the layout: the result is this message
+			if e2 == nil {
+				used := reflect.New(typ)
+				c.Res.Eval(1)
+				if uerr := codec.Unmarshal(append([]byte{}, enc2...), used.Interface()); uerr == nil {
+					if uerr = codec.Unmarshal(append([]byte{}, enc...), used.Interface()); uerr != nil {
+						c.Res.Violate(c18Key(lc, "decode-error", single), fmt.Sprintf("Unmarshal into a variable that already held another value failed for layout [%s]: %v", lc, uerr), w(map[string]any{"bytes": wk.Hex(enc)}), caseNo)
+						return
+					}
+					if !check("unmarshal-into-used-variable", used.Elem(), vals, "Unmarshal into a variable that already held another value of the layout") {
+						return
+					}
+				}
+			}
 			// UnmarshalArray: [v2, v, v2]
 			if e2 != nil {
 				return
